@@ -6,6 +6,8 @@ import (
 	"os"
 
 	"verifharness/drv/cf"
+	"verifharness/drv/fr"
+	"verifharness/drv/frl"
 	"verifharness/drv/fwd"
 	"verifharness/drv/hb"
 	"verifharness/drv/re"
@@ -33,6 +35,10 @@ func main() {
 		os.Exit(re.Main(os.Args[2:]))
 	case "sy":
 		os.Exit(sy.Main(os.Args[2:]))
+	case "fr":
+		os.Exit(fr.Main(os.Args[2:]))
+	case "frl":
+		os.Exit(frl.Main(os.Args[2:]))
 	case "hb":
 		os.Exit(hb.Main(os.Args[2:]))
 	default:
